@@ -20,6 +20,14 @@ A == 1048576         \* 1 MiB per packet, independent of history
 B == 64              \* plus 64 bytes per packet byte
 
 RetainedOk(conns, retained) == retained <= Base + conns * L
+\* more connections than the capacity: what is kept is bounded by the capacity, so it stops growing once the tables are full.
+\* Events in arrival order; `early` = the most that is kept while the first 8 x cap + 64 connections send their first packet;
+\* nothing later may exceed that by more than Slack (independent of the constants above)
+Slack == 65536
+Max(S) == IF S = {} THEN 0 ELSE CHOOSE x \in S : \A y \in S : y <= x
+PlateauOk(events, cap) ==
+  LET early == Max({events[i].retained : i \in {j \in 1..Len(events) : events[j].idx = 0 /\ events[j].conn < 8 * cap + 64}})
+  IN \A i \in 1..Len(events) : events[i].retained <= early + Slack
 WorkOk(len, allocated) == allocated <= A + B * len
 
 \* ---- design model (units of 1 KiB): a connection buffers until its head is reported or Lmax is reached, then stops
